@@ -83,6 +83,9 @@ pub struct GenParams {
     /// `hg diff --git`, or patches whose `index` lines were stripped
     #[serde(default)]
     pub no_index_lines: bool,
+    /// `git diff --no-prefix`: no a/ b/ in front of the paths
+    #[serde(default)]
+    pub no_prefix: bool,
 }
 
 pub struct Gen<'a> {
@@ -157,6 +160,11 @@ impl<'a> Gen<'a> {
             }
         }
         let dir = *self.rng.pick(&["", "src/", "a/b/", "lib/x/"]);
+        if self.special_names && self.rng.chance(1, 10) {
+            // names that need careful parsing of the header lines
+            let n = *self.rng.pick(&["my file.txt", "dir with space/x y.rs", "naïve/файл.py", "a/b", "b/a.rs", "x -> y.txt", "weird\"quote.c"]);
+            return format!("{}{}", dir, n);
+        }
         if self.special_names && self.rng.chance(1, 3) {
             // names whose language is chosen by the whole file name, next to plain names with the same extension
             let n = *self.rng.pick(&["CMakeLists.txt", "notes.txt", "requirements.txt", "Cargo.lock", "yarn.lock", "Makefile", "Dockerfile", "nginx.conf", "app.conf", "todo.txt", "Gemfile", "Rakefile", ".bashrc", "build.gradle", "package.json"]);
@@ -322,6 +330,24 @@ impl<'a> Gen<'a> {
         if p.no_index_lines {
             let tail: Vec<GLine> = self.lines.split_off(start);
             self.lines.extend(tail.into_iter().filter(|l| !(l.kind == LineKind::Meta && l.text.starts_with("index "))));
+        }
+        if p.no_prefix && p.flavor == Flavor::Git {
+            for l in self.lines[start..].iter_mut() {
+                if l.kind != LineKind::Meta {
+                    continue;
+                }
+                if let Some(rest) = l.text.strip_prefix("diff --git a/") {
+                    if let Some(i) = rest.find(" b/") {
+                        l.text = format!("diff --git {} {}", &rest[..i], &rest[i + 3..]);
+                    }
+                } else if let Some(rest) = l.text.strip_prefix("--- a/") {
+                    l.text = format!("--- {}", rest);
+                } else if let Some(rest) = l.text.strip_prefix("+++ b/") {
+                    l.text = format!("+++ {}", rest);
+                } else if l.text.starts_with("Binary files a/") {
+                    l.text = l.text.replace("Binary files a/", "Binary files ").replace(" and b/", " and ");
+                }
+            }
         }
     }
 
@@ -514,6 +540,7 @@ pub fn random_params(rng: &mut Rng, pivot: usize) -> GenParams {
         no_newline_marker: rng.chance(1, 3),
         similar_pairs: rng.chance(1, 2),
         no_index_lines: rng.chance(1, 8),
+        no_prefix: rng.chance(1, 10),
     }
 }
 
